@@ -89,7 +89,7 @@ def execute(case, script=None):
     _r.seed(f"global:{case.get('verif_seed')}:{case.get('index')}")
     view = MDPView(case['spec'])
     ctx = RunCtx(PROP, view)
-    ctx.declare_probes('base_model_with_warm_caches', 'fresh_model_after_other_model', 'rerun_after_abort', 'aborts_delivered', 'nested_run', 'second_derived_mdp_alive', 'second_planned_option_alive', 'option_raised_must', 'option_returned_must', 'boundary_raised', 'start_terminal',
+    ctx.declare_probes('plan_option_subclass_with_exits', 'base_model_with_warm_caches', 'fresh_model_after_other_model', 'rerun_after_abort', 'aborts_delivered', 'nested_run', 'second_derived_mdp_alive', 'second_planned_option_alive', 'option_raised_must', 'option_returned_must', 'boundary_raised', 'start_terminal',
                        'smdp_call_raised', 'smdp_dist_checked', 'primitive_checked', 'static_override_sets', 'plan_option',
                        'subtask_plan_checked', 'f7_before', 'f7_boundary', 'f7_after', 'cross_call_checked', 'smdp_actions_asked', 'option_run_longer_than_330_steps')
     sched = make_scheduler(case, script, ctx)
@@ -128,8 +128,18 @@ def _execute(view, cfg, ctx, sched):
     if cfg['kind'] == 'plan' and g < 1.0:
         ctx.probe('plan_option')
         base_states = sorted(sid[s] for s in mdp.state_list)      # reachable from the base initial states (sorted: the inferred list order may depend on the hash seed)
-        popt = PlanToSubgoalOption(mdp=mdp, initial_states=[sk[s] for s in base_states if s not in term] or [sk[base_states[0]]],
-                                   subgoals=[sk[s] for s in sorted(term)], planner=ValueIteration(max_residual=1e-10),
+        PlanCls, goals_ = PlanToSubgoalOption, sorted(term)
+        if len(term) >= 2 and (len(term) + view.n) % 2 == 0:
+            # call form: the user's own subclass of the planning helper - one declared sub-goal, the other terminal states are
+            # "exits" that only its overridden is_terminal knows about
+            ctx.probe('plan_option_subclass_with_exits')
+
+            class PlanCls(PlanToSubgoalOption):
+                def is_terminal(self_, s):
+                    return sid[s] in term
+            goals_ = sorted(term)[:1]
+        popt = PlanCls(mdp=mdp, initial_states=[sk[s] for s in base_states if s not in term] or [sk[base_states[0]]],
+                                   subgoals=[sk[s] for s in goals_], planner=ValueIteration(max_residual=1e-10),
                                    include_mdp_absorbing_states=cfg['include_abs'], name=cfg['optname'],
                                    max_steps=cfg['max_steps'],
                                    max_nonterminal_pseudoreward=float('inf') if cfg['clip'] is None else cfg['clip'])
